@@ -320,7 +320,7 @@ func Materialise(root string, t *Tree) error {
 			}
 		}
 		if e.Type != "l" {
-			if err := os.Chmod(p, os.FileMode(e.Perm&0o7777)); err != nil {
+			if err := unix.Chmod(p, e.Perm&0o7777); err != nil { // raw mode: setuid, setgid and sticky bits included
 				return err
 			}
 			if err := os.Chtimes(p, mt, mt); err != nil {
@@ -338,7 +338,7 @@ func Materialise(root string, t *Tree) error {
 				return err
 			}
 		}
-		if err := os.Chmod(d.path, os.FileMode(d.e.Perm&0o7777)); err != nil {
+		if err := unix.Chmod(d.path, d.e.Perm&0o7777); err != nil {
 			return err
 		}
 		mt := time.Unix(d.e.Mtime, d.e.MtimeNs)
